@@ -84,7 +84,13 @@ CHECKS['C02'] = ('3/C02', 'Cores built by the real Reactor (enumerated layouts: 
 
 CHECKS['C13'] = ('3/C13', 'PinModel.calculate_temperatures with symbolic power, coolant temperature, film coefficient, step and '
                  'uninterpreted positive conductivity functions; each outcome of the convergence tests within the fork budget is a path; '
-                 'ordering, zero-power identity, film closed form, clad log-profile and the pin-adjacent coolant average are SMT queries.')
+                 'ordering, zero-power identity, film / clad / gap (conduction + radiation) / fuel-shell closed forms with the logged '
+                 'conductivity evaluations, and the pin-adjacent coolant average are SMT queries.')
+
+CHECKS['C07'] = ('3/C07', 'Self-composition over the real step code: two copies of a region (shared symbolic derived state) carry fields and '
+                 'powers related by the permutation that the published centroid coordinates induce for each rotation / the mirror image '
+                 '(mirror copy: index tables and swirl donor column of a region constructed with the opposite wire direction); "result of '
+                 'copy 2 = permuted result of copy 1" is an SMT query per cell for coolant, bypass, duct walls, pin inputs and the six-node region.')
 
 NOT_APPLICABLE = {
     'C16': ('No symbolic dimension for a solver: process schedules/multiprocessing/file output, bitwise IEEE determinism, and '
